@@ -148,6 +148,22 @@ class Lits:
                 a = self.fq2(t[2][0])
                 c = self.fq(t[2][1])
                 return None if a is None or c is None else (a[0] * c % self.P.q, a[1] * c % self.P.q)
+            # literal arithmetic in Fq2 = Fq[u]/(u² + 2) (a value computed once from literals and kept: an inverse, a square)
+            if depth < 8 and "Fq2" in t[1].i + " " + (t[1].get("impl_self") or ""):
+                F2 = PyFq2(self.P.q)
+                if n in ("unwrap", "expect") and t[2]:
+                    return self.fq2(t[2][0], depth + 1)
+                if n == "inverse" and len(t[2]) == 1:
+                    a = self.fq2(t[2][0], depth + 1)
+                    return None if a is None or a == (0, 0) else F2.inv(a)
+                if n == "squared" and len(t[2]) == 1:
+                    a = self.fq2(t[2][0], depth + 1)
+                    return None if a is None else F2.mul(a, a)
+                if n == "mul" and len(t[2]) == 2:
+                    a, b2 = self.fq2(t[2][0], depth + 1), self.fq2(t[2][1], depth + 1)
+                    return None if a is None or b2 is None else F2.mul(a, b2)
+            if n in ("unwrap", "expect") and t[2] and t[1].d.startswith(("core::option::Option", "core::result::Result")) and depth < 8:
+                return self.fq2(t[2][0], depth + 1)
         if t[0] == "agg" and t[1] == "crate::fields::fq2::Fq2":
             a, b = self.fq(t[3][0]), self.fq(t[3][1])
             return None if a is None or b is None else (a, b)
@@ -690,7 +706,7 @@ def classify_twist_multi(repo, b, L=None):
             sign = -sign
             c = strip(c[2][0])
         cs, desc = classify_twist(repo, b, L, rv=c)
-        e = 1 if cs == [(0, True, 1), (1, True, 1), (2, True, a1)] else 2 if cs == [(0, False, 1), (1, False, 1), (2, False, a2)] else None
+        e = twist_power_of(cs, q, a1, a2)
         out.append((e, sign, desc))
     return out
 
@@ -755,6 +771,24 @@ def classify_twist(repo, b, L=None, rv=None):
     return cs, str(cs)
 
 
+def twist_power_of(cs, q, a1, a2):
+    """π^e (e = 1, 2) or None for the coordinate description of a (&G2) -> G2 helper. The image may be any Jacobian representative
+    of the point: (x̄·λ², ȳ·λ³, z̄·α·λ) for some constant λ ≠ 0 is the same point as (x̄, ȳ, z̄·α)."""
+    if not cs or len(cs) != 3 or any(c is None for c in cs):
+        return None
+    if [c[0] for c in cs] != [0, 1, 2] or len({c[1] for c in cs}) != 1:
+        return None
+    conj = cs[0][1]
+    kx, ky, kz = (c[2] % q for c in cs)
+    if not (kx and ky and kz):
+        return None
+    alpha = a1 if conj else a2
+    lam = kz * pow(alpha, -1, q) % q
+    if kx == lam * lam % q and ky == lam * lam * lam % q:
+        return 1 if conj else 2
+    return None
+
+
 def twist_powers(repo, roles):
     """{path: e} for the (&G2) -> G2 helpers of the pairing module that are the twist Frobenius π^e (e = 1, 2) coordinate-wise."""
     q = repo.P.q
@@ -767,10 +801,9 @@ def twist_powers(repo, roles):
             cs, _ = classify_twist(repo, b, L)
         except FactsError:
             cs = None
-        if cs == [(0, True, 1), (1, True, 1), (2, True, a1)]:
-            out[b.rec["path"]] = 1
-        elif cs == [(0, False, 1), (1, False, 1), (2, False, a2)]:
-            out[b.rec["path"]] = 2
+        e_ = twist_power_of(cs, q, a1, a2)
+        if e_ is not None:
+            out[b.rec["path"]] = e_
     for b in getattr(roles, "twist_frob_multi", []):
         try:
             comps = classify_twist_multi(repo, b, L)
@@ -819,11 +852,7 @@ def rule_frobenius(prop, repo):
     for b in roles.twist_frob:
         R.instance()
         cs, desc = classify_twist(repo, b, L)
-        e = None
-        if cs == [(0, True, 1), (1, True, 1), (2, True, a1)]:
-            e = 1
-        elif cs == [(0, False, 1), (1, False, 1), (2, False, a2)]:
-            e = 2
+        e = twist_power_of(cs, q, a1, a2)
         got_powers[e] = got_powers.get(e, 0) + 1
         R.check(e is not None, "%s:frobenius:twist:%s" % (prop, b.name), "%s is neither π = (x̄, ȳ, z̄·α1) nor π² = (x, y, z·α2): %s" % (b.rec["path"], desc),
                 b.file_line(), b.rec["path"], sample={"fn": b.rec["path"], "frobenius_power": e, "coords": desc[:120]})
@@ -840,7 +869,11 @@ def rule_frobenius(prop, repo):
     # prepared path: the (point, factor) Frobenius helper is applied with f = α1 (twice)
     pb = roles.producer
     R.instance()
-    if pb is None or len(roles.twist_frob_by) != 1:
+    if pb is not None and not roles.twist_frob_by and got_powers.get(1):
+        # no helper that takes the factor as an argument: the producer uses the plain π / π² helpers judged above, and how it
+        # applies them is the Miller-index rule's business
+        R.ok(sample={"producer": pb.rec["path"], "frobenius_steps": "through the (&G2) -> G2 helpers"})
+    elif pb is None or len(roles.twist_frob_by) != 1:
         R.fail_closed("%s:frobenius:prepared" % prop, "prepared-point producer or its Frobenius helper not found")
     else:
         tb = repo.tb(pb)
